@@ -186,6 +186,7 @@ func TestVerifC17RbfCoop(t *testing.T) {
 	defer st.Flush()
 	maxSteps := vstats.EnvInt("VERIF_STEPS", 12)
 	perSim := vstats.EnvInt("VERIF_C17_PER_SIM", 4)
+	lockTimes := vstats.EnvInt("VERIF_C17_LOCKTIME", 0) != 0
 
 	rapid.Check(t, func(t *rapid.T) {
 		c := vc17Setup(t, vc17RbfTypes, maxSteps)
@@ -197,7 +198,7 @@ func TestVerifC17RbfCoop(t *testing.T) {
 
 		n := rapid.IntRange(1, perSim).Draw(t, "closes")
 		for k := 0; k < n; k++ {
-			vc17RbfCase(t, st, c, k)
+			vc17RbfCase(t, st, c, k, lockTimes)
 		}
 	})
 }
@@ -227,7 +228,9 @@ func vc17DrawRbfFee(t *rapid.T, c *vc17Chan, x int, label string) btcutil.Amount
 	return btcutil.Amount(f)
 }
 
-func vc17RbfCase(t *rapid.T, st *vstats.Collector, c *vc17Chan, k int) {
+func vc17RbfCase(t *rapid.T, st *vstats.Collector, c *vc17Chan, k int,
+	lockTimes bool) {
+
 	p := c.p
 	taproot := p.ChanType.IsTaproot()
 	chans := c.load(t)
@@ -300,7 +303,13 @@ func vc17RbfCase(t *rapid.T, st *vstats.Collector, c *vc17Chan, k int) {
 		// leaves it zero, and LocalCloseStart signs a transaction with
 		// lock time zero whatever this field says, so zero is the only
 		// value of the real callers' domain (see notes/C17b.md).
+		// VERIF_C17_LOCKTIME=1 generates non-zero values anyway (repro
+		// of that latent mismatch; the check then fails).
 		var lockTime uint32
+		if lockTimes && rapid.Bool().Draw(t, "lockTimeSet") {
+			lockTime = uint32(rapid.IntRange(1, vc17Height).Draw(t,
+				"lockTime"))
+		}
 		sd.env = &Environment{
 			ChainParams:    chaincfg.RegressionNetParams,
 			ChanPeer:       peerPub,
